@@ -914,6 +914,9 @@ func (i *interpreter) unop(instr *ssa.UnOp, x value) value {
 			return -x
 		}
 	case token.MUL:
+		if lc, ok := x.(lazyCell); ok {
+			return i.indexRead(lc.a, lc.idx)
+		}
 		p := x.(*value)
 		if p == nil {
 			panic(runtimePanic{"invalid memory address or nil pointer dereference"})
